@@ -13,6 +13,7 @@ by zero and null dereference is an obligation of kind `ub` / `frame` (never sile
 from __future__ import annotations
 
 import json
+import re
 import os
 import subprocess
 from typing import Any, Dict, List, Optional, Tuple
@@ -569,6 +570,17 @@ class Interp:
                 self.ob("ub", "signed overflow in %s" % op, False)
             return self.norm(r, t)
         x, y = self.bv(a, t), self.bv(b, t)
+        am = getattr(self, "abs_muldiv", None)
+        if am is not None and op in ("*", "/") and is_sym(a) and is_sym(b) and t.signed:
+            # products / quotients of two symbolic operands as uninterpreted ghost functions (sound for validity: whatever is proved
+            # holds for the real operators); the contract supplies proved instances of their arithmetic laws
+            if op == "*":
+                from ..pysym import engine as _EN
+                _EN.cur().assume(z3.And(am["mul"](x, y) == am["mul"](y, x), am["mul_ok"](x, y) == am["mul_ok"](y, x)))   # commutative
+                self.ob("ub", "signed overflow in *", am["mul_ok"](x, y))
+                return self.norm(am["mul"](x, y), t)
+            self.ob("ub", "division by zero", y != 0)
+            return self.norm(am["div"](x, y), t)
         if op == "+":
             if t.signed:
                 self.ob("ub", "signed overflow in +", z3.And(z3.BVAddNoOverflow(x, y, True), z3.BVAddNoUnderflow(x, y)))
@@ -804,6 +816,27 @@ class Interp:
                 if d["kind"] != "VarDecl":
                     continue
                 t = self.T.parse(d["type"]["qualType"])
+                if d.get("storageClass") == "static":
+                    # a static local outlives the call.  const: initialised once, kept.  Otherwise its contents at this call are
+                    # whatever EARLIER calls left there - the property quantifies over every history, so: arbitrary bytes (the
+                    # initialiser ran once at program start and says nothing about now)
+                    if not hasattr(self, "statics"):
+                        self.statics = {}
+                    if d["id"] in self.statics:
+                        self.frames[-1][d["id"]] = self.statics[d["id"]]
+                        continue
+                    size = self.T.sizeof(t)
+                    is_const = bool(re.search(r"\bconst\b", d["type"]["qualType"]))
+                    r = self.alloc(d["name"], size, None if is_const else 0, kind="local")
+                    self.statics[d["id"]] = r
+                    self.frames[-1][d["id"]] = r
+                    if is_const:
+                        inits = [c for c in d.get("inner", []) if "Comment" not in c.get("kind", "")]
+                        if inits:
+                            self.init_into(LV(r, 0, t), inits[0])
+                    else:
+                        self.store_cells(r, 0, [z3.BitVec("static.%s[%d]" % (d["name"], k), 8) for k in range(size)])
+                    continue
                 r = self.alloc(d["name"], self.T.sizeof(t), None, kind="local")
                 self.frames[-1][d["id"]] = r
                 if d.get("inner"):
